@@ -17,6 +17,16 @@ streams numpy_shapes / dict_wh_shapes: continuation with weights=, remove_duplic
 None / False, repeated name under policy 'error', dict_wh make_data_array and
 list / generator input; stream outcome_less: events with an empty outcome field
 (the outcome named '').
+Models of the Python paths (lean/PyndlModel/WHPy.lean; C08 wh_numpy_eq_spec,
+dict_wh_eq_spec, wh_implementations_alike): EVERY numpy / dict_wh case above is
+also compared with `whNumpyModel` / `dictWhModel` (driver ops wh_numpy / dict_wh,
+the calls of a chain one by one); stream py_errors: events with two cues / two
+outcomes / a repeat under remove_duplicates=False (AssertionError), no outcome,
+names without a vector (numpy: ValueError from the table check, before any
+AssertionError; dict_wh: KeyError at that event), one or two defects per file, also
+inside chains (which call fails) - compared with these models only; stream
+numpy_given_weights: method='numpy' with weights= whose labels are the same /
+permuted / foreign / repeated / of another shape (both models).
 """
 import gen
 import whgen
@@ -134,6 +144,66 @@ def make_outcome_less_case(r, flavour):
     return t
 
 
+PY_ERROR_KINDS = ['two_cues', 'two_outcomes', 'repeat_keep', 'unknown_cue', 'unknown_outcome', 'no_outcome']
+
+
+def _spoil(r, t, e, kind):
+    """make event `e` of task `t` one that method='numpy' / dict_wh do not learn from"""
+    if kind == 'two_cues':
+        e[0] = r.sample(CUES, 2)
+    elif kind == 'two_outcomes':
+        e[1] = r.sample(OUTS, 2)
+    elif kind == 'repeat_keep':
+        side = r.randrange(2)
+        e[side] = e[side] * 2
+        t['policy'] = 'keep'
+    elif kind == 'unknown_cue':
+        e[0] = ['q']
+    elif kind == 'unknown_outcome':
+        e[1] = ['q']
+    elif kind == 'no_outcome':
+        e[1] = []
+
+
+def make_py_error_case(r, method):
+    """one or two events the Python paths reject (wh.py:275-293 / 850-869), anywhere in the file, also in chains"""
+    t = make_case(r, 'r2r', single=True)
+    t['method'] = method
+    t['policy'] = r.choice(SHAPE_POLICIES)
+    es = t['events']
+    kinds = [r.choice(PY_ERROR_KINDS)]
+    if len(es) >= 2 and r.random() < 0.5:
+        kinds.append(r.choice(PY_ERROR_KINDS))
+    for k, kind in zip(r.sample(range(len(es)), len(kinds)), kinds):
+        _spoil(r, t, es[k], kind)
+    t['spoiled'] = kinds
+    n = len(es)
+    if n >= 2 and r.random() < 0.4:
+        k = r.randint(1, n - 1)
+        t['pieces'] = [es[:k], es[k:]]
+    if method == 'dict_wh':
+        t['make_data_array'] = r.random() < 0.5
+        t['events_form'] = r.choice(['path', 'list', 'generator'])
+    return t
+
+
+def make_numpy_given_weights_case(r):
+    """method='numpy' with weights= handed in by the caller: the label handling of _wh_real_to_real (shape check,
+    aligned comparison, .loc by label) runs before the numpy loop as before the OpenMP call"""
+    t = make_case(r, 'r2r', single=True)
+    t['method'] = 'numpy'
+    t['policy'] = r.choice(SHAPE_POLICIES)
+    hows = ['same', 'permuted', 'foreign', 'one_foreign', 'repeat', 'shorter', 'longer']
+    if r.random() < 0.5:
+        hows = ['same', 'permuted']
+    cols = _relabel(r, t['cue_vectors']['dims'], r.choice(hows))
+    rows = _relabel(r, t['outcome_vectors']['dims'], r.choice(hows))
+    t['init'] = {'rows': rows, 'cols': cols,
+                 'vals': ['%d/%d' % (r.randint(-4, 4), r.choice([1, 2, 4])) for _ in range(len(rows) * len(cols))]}
+    t['given_labels'] = [rows, cols]
+    return t
+
+
 def _evaluate(pool, driver, t):
     impl = pool.map([t])[0]
     model = driver.ask([whgen.model_request(t)])[0]
@@ -223,9 +293,43 @@ def run(rep, pool, driver, tier):
     for i in range(8 if quick else 80):
         for flavour in ('r2r', 'b2r', 'r2b'):
             tasks.append((make_given_weights_case(r_gw, flavour), 'given_weights_labels'))
+    r_pe = rng('C08/py_errors')
+    for i in range(14 if quick else 160):
+        tasks.append((make_py_error_case(r_pe, 'numpy'), 'py_errors'))
+        tasks.append((make_py_error_case(r_pe, 'dict_wh'), 'py_errors'))
+    r_ng = rng('C08/numpy_given_weights')
+    for i in range(10 if quick else 100):
+        tasks.append((make_numpy_given_weights_case(r_ng), 'numpy_given_weights'))
     impls = pool.map([t for t, _ in tasks])
     models = driver.ask([whgen.model_request(t) for t, _ in tasks])
+    # the models of the Python paths themselves
+    py_idx = [i for i, (t, _) in enumerate(tasks) if t.get('method') in ('numpy', 'dict_wh')]
+    py_models = dict(zip(py_idx, driver.ask([whgen.py_model_request(tasks[i][0]) for i in py_idx])))
+    for i in py_idx:
+        t, stream = tasks[i]
+        pm, impl = py_models[i], impls[i]
+        m = t['method']
+        rep.count('py_model:%s:%s' % (m, pm.get('err', 'Returned')))
+        if stream == 'py_errors':
+            rep.count('py_errors:%s:%s:%s' % (m, '+'.join(sorted(t['spoiled'])), pm.get('err', 'Returned')))
+            if pm.get('err'):
+                rep.count('py_errors:failed_call:%s' % pm.get('failed_piece'))
+        if stream == 'numpy_given_weights':
+            rep.count('numpy_given_weights:%s' % pm.get('err', 'accepted'))
+        d = whgen.compare_py(impl, pm)
+        if d is not None:
+            rep.violation({'what': d, 'input': t, 'observed': impl.get('cells', impl.get('err')), 'expected': pm.get('cells', pm.get('err')),
+                           'theorem_or_stream': 'C08 %s: %s (%s) vs its own Lean model %s' % (
+                               'wh_numpy_eq_spec' if m == 'numpy' else 'dict_wh_eq_spec',
+                               "wh.wh(method='numpy')" if m == 'numpy' else 'wh.dict_wh', stream,
+                               'whNumpyModel' if m == 'numpy' else 'dictWhModel')})
     for (t, stream), impl, model in zip(tasks, impls, models):
+        if stream == 'py_errors':
+            # outside what whModel describes (it learns from several cues / outcomes): compared with the
+            # models of the Python paths only (above)
+            rep.case({k: v for k, v in t.items() if k != 'op'}, nontrivial=True, stream=stream)
+            rep.count('flavour:' + t['flavour'])
+            continue
         rep.case({k: v for k, v in t.items() if k != 'op'}, nontrivial=True, stream=stream)
         rep.count('flavour:' + t['flavour'])
         if stream == 'given_weights_labels':
